@@ -89,7 +89,7 @@ func c03World(tp *Tape, env *Env) (*Plan, *Violation) {
 func c03Exec(plan *Plan, st *Stats) *Violation {
 	var prev map[string]string
 	cut := false
-	hk := &execHooks{bubble: needsBubble(&plan.World, plan.Ops, plan.Program)}
+	hk := &execHooks{bubble: needsBubble(&plan.World, plan.Ops, plan.Program), callsClause: "C03.calls"}
 	hk.afterOp = func(i int, op *Op, got *Resp, h *Host, tr *Trace) *Violation {
 		store := tr.Stores[len(tr.Stores)-1]
 		defer func() { prev = store }()
